@@ -95,6 +95,36 @@ def run(F, tier, res):
                     r[0] == 'param' and r[2] and r[2][-1] == 'line' for a in c['args'][:2] for r in F.trace(p, a)):
                 m += 1
     res.rule('C08.LINE-PREDICATES', m, 15, 'marker / regex predicates in state-machine methods whose subject is the stripped `line`')
+    # ---------- RAW-STYLE: a hunk line whose style is `raw` always keeps its raw form (escape sequences or not)
+    nr = okr = 0
+    mrl = [q for q in F.fn_bodies if q.endswith('::maybe_raw_line')]
+    if not mrl:
+        res.anchor_missing('maybe_raw_line')
+    for q in mrl:
+        raw_params = set()
+        for (pp, i, c) in Ru.call_sites(F, lambda r, cc: r == q):
+            for k, a in enumerate(c['args']):
+                if any(r[0] in ('param', 'local') and r[2] and r[2][-1] == 'is_raw' for r in F.trace(pp, a)):
+                    raw_params.add(k + 1)
+        nr += 1
+        if not raw_params:
+            res.violate('RAW-STYLE', 'fn=%s;no-raw-argument' % q, 'no call passes the state style\'s `is_raw` to the raw-line decision', where=F.bodies[q]['mir']['span']['at'])
+            continue
+        from .. import fdeval
+        found = True
+        none_blocks = [i for i, b in enumerate(F.blocks(q)) if not b['cleanup'] and any(
+            st[0] == 'assign' and st[1]['l'] == 0 and not st[1]['p'] and st[2][0] == 'agg' and st[2][1][0] == 'adt' and st[2][1][1].endswith('Option') and st[2][1][2] == 0
+            for st in b['s'])]
+        try:
+            r = fdeval.reach_with(F, q, {k: True for k in raw_params})
+        except fdeval.Undecidable:
+            r = set(range(len(F.blocks(q))))
+        if found and none_blocks and not any(nb in r for nb in none_blocks):
+            okr += 1
+        else:
+            res.violate('RAW-STYLE', 'fn=%s' % q, 'the raw-line decision can answer None although the line\'s style is `raw` (some path to None does not test it): '
+                        'such a line is then painted with delta\'s computed styles instead of keeping its input colouring', where=F.bodies[q]['mir']['span']['at'])
+    res.rule('C08.RAW-STYLE', nr, 1, 'raw-line decision: partial evaluation with is_raw = true; the None result is unreachable', discharged=okr)
     from ._ansi import accounting_rule
     accounting_rule(F, res, 'C08')
     res.distinct.update(r['rule'] for r in res.rules)
